@@ -115,7 +115,9 @@ var stackTable = []stackRow{
 		return fanspeedpb.WrapApi(r), m
 	}},
 	{"hailpb", "NewModelServer", func() (any, any) {
-		m := hailpb.NewModel()
+		// the timed garbage collection of arrived hails (a server-initiated Delete) is switched off: the keyed
+		// sessions decide themselves when an item is deleted
+		m := hailpb.NewModel(hailpb.WithKeepAlive(-1))
 		r := hailpb.NewApiRouter()
 		r.Add(devName, hailpb.WrapApi(hailpb.NewModelServer(m)))
 		return hailpb.WrapApi(r), m
